@@ -367,6 +367,16 @@ void fixComponentUnits(const ModelPtr &model, const ComponentPtr &component)
     }
 }
 
+static VariablePtr variableLocatedAt(const Model *model, const IndexStack &stack)
+{
+    ComponentPtr component = model->component(stack.at(0));
+    for (size_t index = 1; index + 1 < stack.size(); ++index) {
+        component = component->component(stack.at(index));
+    }
+
+    return component->variable(stack.back());
+}
+
 ModelPtr Model::clone() const
 {
     auto m = create();
@@ -399,6 +409,24 @@ ModelPtr Model::clone() const
         indexStack.pop_back();
     }
     applyEquivalenceMapToModel(map, m);
+
+    // The equivalences have been re-created: carry over their mapping and connection identifiers.
+    for (const auto &entry : map) {
+        auto variable = variableLocatedAt(this, entry.first);
+        auto clonedVariable = variableLocatedAt(m.get(), entry.first);
+        for (const auto &equivalentStack : entry.second) {
+            auto equivalentVariable = variableLocatedAt(this, equivalentStack);
+            auto clonedEquivalentVariable = variableLocatedAt(m.get(), equivalentStack);
+            auto mappingId = Variable::equivalenceMappingId(variable, equivalentVariable);
+            if (!mappingId.empty()) {
+                Variable::setEquivalenceMappingId(clonedVariable, clonedEquivalentVariable, mappingId);
+            }
+            auto connectionId = Variable::equivalenceConnectionId(variable, equivalentVariable);
+            if (!connectionId.empty()) {
+                Variable::setEquivalenceConnectionId(clonedVariable, clonedEquivalentVariable, connectionId);
+            }
+        }
+    }
 
     return m;
 }
